@@ -55,7 +55,17 @@ def run(ctx: Ctx) -> None:
                        "clause line = that clause (the rule the documentation and the implementation share)",
                        "executable line = line in the compiled code object's line table (independent of Pynguin)"]
     cases = ctx.behaviours("MC_PyMiniExcl", timeout=1500)
-    cases += ctx.behaviours("MC_PyMiniExcl", "MC_PyMiniExcl_scopes.cfg", timeout=1500)[: (240 if ctx.quick else 10 ** 6)]
+    scoped = ctx.behaviours("MC_PyMiniExcl", "MC_PyMiniExcl_scopes.cfg", timeout=1500)
+    if ctx.quick:  # every scope configuration is kept, 60 programs each
+        per: dict[str, list] = {}
+        for c in scoped:
+            per.setdefault(c["scope"], []).append(c)
+        rng = ctx.rng("scopes")
+        scoped = []
+        for k in sorted(per):
+            rng.shuffle(per[k])
+            scoped += per[k][:60]
+    ctx.notes["scope_configurations"] = sorted({c["scope"] for c in scoped})
     if not ctx.quick:
         two = ctx.behaviours("MC_PyMiniExcl", "MC_PyMiniExcl_thorough.cfg", timeout=3000)
         rng = ctx.rng("two")
@@ -63,9 +73,10 @@ def run(ctx: Ctx) -> None:
         cases += two[:8000]
     elif len(cases) > 1500:
         rng = ctx.rng("quick")
-        marked = [c for c in cases if c["markers"] or c["scope"] != "none"]
+        marked = [c for c in cases if c["markers"]]
         rng.shuffle(marked)
-        cases = marked[:1400]
+        cases = marked[:1200]
+    cases += scoped
     jobs = [(c, str(ctx.work / "px" / f"w{n % 32}"), f"{ctx.seed}x{n}") for n, c in enumerate(cases)]
     evs = parallel_map(_run, jobs, procs=8, chunksize=16)
     for e in evs:
